@@ -5,11 +5,11 @@ from ._util import H, KGroup
 def plan(tier, seed):
     ints = [H("c03::w1_%s" % t, "write::<%s> into exactly FORMATTED_SIZE_DECIMAL bytes: no panic, length within bound, all pointer checks" % t, "all values") for t in ("u8", "i8", "u16", "i16")]
     ints += [H("c03::w2_%s" % t, "cubes, exactly FORMATTED_SIZE_DECIMAL bytes", "base +- d") for t in ("u32", "i64", "usize")]
-    groups = [KGroup("D", ints, timeout=900, jobs=8, mem_gb=8, label="integers, exact buffer"),
+    groups = [KGroup("D", ints, timeout=900, jobs=8, mem_gb=14, label="integers, exact buffer"),
               KGroup("D", [H("wf::d3_bound_3", "write_with_options::<f64> (Dragonbox stubbed to a symbolic decimal) into exactly buffer_size_const (=64) bytes: no panic, no out-of-bounds access, length within bound", "mantissa < 10^3, all exponents, max/min digits 0..8, breaks |b|<=12, round/trim symbolic")], timeout=2400, jobs=1, mem_gb=16, stubbing=True, label="floats, exact buffer")]
     kernels = ["jeaiii_u8", "jeaiii_u16", "jeaiii_u32"]
     if tier == "thorough":
-        groups.append(KGroup("R", [H("c03::radix::w3_u8_r2", "radix writer, FORMATTED_SIZE bytes", "all values"), H("c03::radix::w3_i16_r16", "", "all values")], timeout=900, jobs=2, mem_gb=8, label="radix"))
+        groups.append(KGroup("R", [H("c03::radix::w3_u8_r2", "radix writer, FORMATTED_SIZE bytes", "all values"), H("c03::radix::w3_i16_r16", "", "all values")], timeout=900, jobs=2, mem_gb=14, label="radix"))
     return {
         "kani": groups,
         "smt": {"features": (), "kernels": kernels},
